@@ -293,44 +293,64 @@ func c15Check(query string, o c15Opts, stream string) string {
 
 func c15Run(c *engine.Ctx) {
 	WorkDir()
-	streams := c15Streams(c.Quick())
+	// the quick streams first, completely; the thorough tier adds its further streams at the end, under the guard
+	streams := c15Streams(true)
 	opts := c15AllOpts()
-	c.Sub("product")
 	idx := 0
-	for _, q := range c15Queries {
-		for si, st := range streams {
-			idx++
-			if !c.MineIdx(idx) || c.Expired() {
-				continue
-			}
-			for oi, o := range opts {
-				key := fmt.Sprintf("%s\t%q\t%s", q, st, strings.Join(o.args(), " "))
-				if !c.Guard(key) {
+	product := func(streams []string) {
+		c.Sub("product")
+		for _, q := range c15Queries {
+			for si, st := range streams {
+				idx++
+				if !c.MineIdx(idx) || c.Expired() {
 					continue
 				}
-				c.Eval()
-				if oi%64 == 0 {
-					c.Outcome(fmt.Sprintf("exit status %d", c15Model(q, o, st).status))
-				}
-				if msg := c15Check(q, o, st); msg != "" {
-					c.Violation(key, "command-model", map[string]any{"query": q, "stream": st, "opts": oi, "why": msg})
-				}
-				c.Unguard()
-				if (idx*31+oi)%257 == 0 { // deterministic slice through the real binary
-					if br, ok := RunBinary(append(o.args(), q), st); ok {
-						c.Count("binary_cross_checks", 1)
-						exp := c15Model(q, o, st)
-						if br.Stdout != exp.stdout || br.Status != exp.status&0xff || looksLikeCrash(br.Stderr) {
-							c.Violation(key, "binary-model", map[string]any{"query": q, "stream": st, "opts": oi, "why": fmt.Sprintf("real binary: status %d stdout %q stderr %q; model: status %d stdout %q", br.Status, head(br.Stdout, 200), head(br.Stderr, 200), exp.status&0xff, head(exp.stdout, 200))})
+				for oi, o := range opts {
+					key := fmt.Sprintf("%s\t%q\t%s", q, st, strings.Join(o.args(), " "))
+					if !c.Guard(key) {
+						continue
+					}
+					c.Eval()
+					if oi%64 == 0 {
+						c.Outcome(fmt.Sprintf("exit status %d", c15Model(q, o, st).status))
+					}
+					if msg := c15Check(q, o, st); msg != "" {
+						c.Violation(key, "command-model", map[string]any{"query": q, "stream": st, "opts": oi, "why": msg})
+					}
+					c.Unguard()
+					if (idx*31+oi)%257 == 0 { // deterministic slice through the real binary
+						if br, ok := RunBinary(append(o.args(), q), st); ok {
+							c.Count("binary_cross_checks", 1)
+							exp := c15Model(q, o, st)
+							if br.Stdout != exp.stdout || br.Status != exp.status&0xff || looksLikeCrash(br.Stderr) {
+								c.Violation(key, "binary-model", map[string]any{"query": q, "stream": st, "opts": oi, "why": fmt.Sprintf("real binary: status %d stdout %q stderr %q; model: status %d stdout %q", br.Status, head(br.Stdout, 200), head(br.Stderr, 200), exp.status&0xff, head(exp.stdout, 200))})
+							}
 						}
 					}
 				}
+				c.DistinctN(int64(len(opts)))
+				_ = si
 			}
-			c.DistinctN(int64(len(opts)))
-			_ = si
 		}
 	}
+	product(streams)
 	c.Sample(map[string]any{"query": c15Queries[12], "stream": streams[len(streams)/2], "options": "all 512 subsets of -r -j --raw-output0 -c --tab --indent 1 -e -n -s"})
+	defer func() {
+		if c.Quick() {
+			return
+		}
+		have := map[string]bool{}
+		for _, st := range streams {
+			have[st] = true
+		}
+		var more []string
+		for _, st := range c15Streams(false) {
+			if !have[st] {
+				more = append(more, st)
+			}
+		}
+		product(more)
+	}()
 
 	// every indentation count, alone and together with --tab and -c (the product above only has --indent 1)
 	c.Sub("indent-values")
@@ -537,9 +557,9 @@ func c15Replay(v *engine.Violation) (bool, string) {
 
 func init() {
 	engine.Register(&engine.Check{
-		ID:    "C15",
-		Level: "exploration",
-		Rule: "the full product of 52 queries (values of each type, several outputs, empty, errors at first/middle/last position, error with string/null/object payloads, halt, halt_error with and without codes 0/1/5/256/257/-1, NUL and newline strings, falsy last outputs, input-consuming queries, parse and compile errors) x input streams of 0..3 documents (thorough 0..4; five-document streams of one shape) from 6 document kinds with an optional malformed tail x all 512 subsets of {-r, -j, --raw-output0, -c, --tab, --indent 1, -e, -n, -s}, run in-process (hook VerifRun) and compared with a reference command model: the LIBRARY's outputs for each input rendered with Marshal + json.Indent in the selected unit, raw strings, the selected terminator, --raw-output0 rejecting NUL, halt semantics, stderr non-empty iff a diagnostic is due, exit status per the documented table (last error wins, modulo 256). Every indentation count -1..10 alone and with --tab (both orders) and -c. A deterministic slice is re-run through the real binary; multi-file scenarios cover input errors in non-last files.",
+		ID:             "C15",
+		Level:          "exploration",
+		Rule:           "the full product of 52 queries (values of each type, several outputs, empty, errors at first/middle/last position, error with string/null/object payloads, halt, halt_error with and without codes 0/1/5/256/257/-1, NUL and newline strings, falsy last outputs, input-consuming queries, parse and compile errors) x input streams of 0..3 documents (thorough 0..4; five-document streams of one shape) from 6 document kinds with an optional malformed tail x all 512 subsets of {-r, -j, --raw-output0, -c, --tab, --indent 1, -e, -n, -s}, run in-process (hook VerifRun) and compared with a reference command model: the LIBRARY's outputs for each input rendered with Marshal + json.Indent in the selected unit, raw strings, the selected terminator, --raw-output0 rejecting NUL, halt semantics, stderr non-empty iff a diagnostic is due, exit status per the documented table (last error wins, modulo 256). Every indentation count -1..10 alone and with --tab (both orders) and -c. A deterministic slice is re-run through the real binary; multi-file scenarios cover input errors in non-last files.",
 		Assume:         []string{"C12 establishes separately that the command's encoder equals Marshal modulo white space; here the layout produced by json.Indent is taken as the reference layout"},
 		Run:            c15Run,
 		Replay:         c15Replay,
